@@ -81,8 +81,11 @@ func (d Dialogue) Bytes() []byte {
 type Scn struct {
 	Commands []string          `json:"commands"`
 	Creds    map[string]string `json:"creds"`
-	Form     string            `json:"form,omitempty"`     // "" = JSON configuration; "caddyfile" = the same options written as a Caddyfile block and parsed by the handler's UnmarshalCaddyfile
-	D        *Dialogue         `json:"dialogue,omitempty"` // replay
+	// EmptyName: the configuration also lists an account whose user name is a placeholder that
+	// resolves to nothing
+	EmptyName bool      `json:"empty_name,omitempty"`
+	Form      string    `json:"form,omitempty"`     // "" = JSON configuration; "caddyfile" = the same options written as a Caddyfile block and parsed by the handler's UnmarshalCaddyfile
+	D         *Dialogue `json:"dialogue,omitempty"` // replay
 	// Rotate: commands and passwords are written as {env.*} placeholders; a first handler is
 	// provisioned while the variables hold OTHER values (the configuration before a secret was
 	// rotated and the config reloaded), then the variables are set to the values of this
@@ -93,6 +96,15 @@ type Scn struct {
 // rawConfig: the configuration as written (placeholders unresolved) and the environment that
 // resolves it to the scenario's commands and credentials.
 func rawConfig(sc *Scn) (cmds []string, creds map[string]string, env map[string]string) {
+	if sc.EmptyName {
+		// next to the configured accounts, an optional one whose name and password are
+		// placeholders of variables that are not set: it names nobody and is no account
+		creds = map[string]string{"{env.VERIF_C16_UNSET_USER}": "{env.VERIF_C16_UNSET_PASS}"}
+		for u, p := range sc.Creds {
+			creds[u] = p
+		}
+		return sc.Commands, creds, nil
+	}
 	if !sc.Rotate {
 		return sc.Commands, sc.Creds, nil
 	}
@@ -458,6 +470,11 @@ func scenarios(tier string, yield func(any) bool) {
 			}
 			if len(cs)+len(cr) > 0 && len(cs) <= 1 {
 				if !yield(&Scn{Commands: cs, Creds: cr, Rotate: true}) {
+					return
+				}
+			}
+			if len(cr) > 0 && len(cs) <= 1 {
+				if !yield(&Scn{Commands: cs, Creds: cr, EmptyName: true}) {
 					return
 				}
 			}
